@@ -299,3 +299,127 @@ Example C11_segment_means_example :
   segment_by_peaks [1; 3; 5; 7; 9] [2%Z] (Some [1; 1; 1; 3; 0]) = [2; 2; 13 # 2; 13 # 2; 13 # 2] /\
   range_wmean [1; 3; 5; 7; 9] [1; 1; 1; 3; 0] 2 5 == 13 # 2 /\ range_mean [1; 3; 5; 7; 9] 0 2 == 2.
 Proof. vm_compute. repeat split; reflexivity. Qed.
+
+(* ------------------------------------------------------------------------------------------------------
+   Source tie of the loops (Gen/FnHaar*.v: ONE ITERATION of a loop of cnvlib/segmentation/haar.py,
+   regenerated from the Python source on every run by tools/py2v_fn.py from tools/fnspecs/haar.py; proofs in
+   Proofs/FnHaar.v).  Array reads are parameters of the generated steps; each theorem says which element of
+   the model's list is passed, at the index the generated step itself returns.  The generated steps compute on
+   unreduced rationals, the model reduces after each operation, hence `Qred (generated)`.  A store
+   `result[k] = e` is a result of the step (the variable named `result[k]`).
+   Not tied (translator cannot express them, see tools/fnspecs/haar.py): FindLocalPeaks' loop body,
+   UnifyLevels' inner while body. *)
+From CNV Require Import Gen.FnHaarConv Gen.FnHaarSegs Gen.FnHaarUnify Gen.FnHaarPulse Proofs.FnHaar.
+Local Open Scope Z_scope.
+
+(* HaarConv, weight is None, `for k in range(1, signalSize):` -- the generated iteration returns
+   (highEnd, lowEnd, result[k]): the indices are the model's mirrored indices, and with the signal's elements at
+   those indices passed for signal[highEnd] / signal[lowEnd] / signal[k - 1] and result[k - 1] = prev, one
+   unfolding of the model's recursion conv_u_loop is the generated result[k] *)
+Theorem C11_source_conv_step :
+  forall (sqrt : Q -> Q) (sg : list Q) (n h : Z) (x : Q) (t : list Q) (k : Z) (prev : Q)
+         (sh sl sp wh wl wp a b c d : Q),
+  let '(hi, lo, r) := fn_haarconv_step_u sqrt k h n None prev sh sl sp wh wl wp a b c d in
+  hi = mirror_hi n (k + h - 1) /\ lo = mirror_lo (k - h - 1) /\
+  (sh = qnth sg hi -> sl = qnth sg lo -> sp = qnth sg (k - 1) ->
+   conv_u_loop sg n h (x :: t) k prev = Qred r :: conv_u_loop sg n h t (k + 1) (Qred r)).
+Proof. exact conv_u_step. Qed.
+
+(* hence the whole recursion, and unweighted HaarConv, is the generated iteration run over k = 1, 2, ...
+   (run_conv_u / src_conv_u_step: Proofs/FnHaar.v) *)
+Theorem C11_source_conv_loop :
+  forall (sqrt : Q -> Q) (sg : list Q) (h : Z) (scale : Q),
+  haar_conv sg None h scale
+  = let n := Zlength_nat sg in
+    if n <? h then map (fun _ => 0%Q) sg
+    else match sg with
+         | [] => []
+         | _ :: rest => 0%Q :: map (fun x => Qred (x / scale)) (run_conv_u (src_conv_u_step sqrt sg n h) rest 1 0%Q)
+         end.
+Proof. exact haar_conv_u_source. Qed.
+
+(* HaarConv, weighted: the generated iteration returns (highEnd, lowEnd, lowNonNormed, highNonNormed, lowWeightSum,
+   highWeightSum, result[k]) after the four `+=` and the store; they are the model's indices, running sums and
+   output, for the factor the code uses: scale = math.sqrt(stepHalfSize / 2) (`sqrt` is the generated module's oracle) *)
+Theorem C11_source_conv_step_weighted :
+  forall (sqrt : Q -> Q) (sg wt : list Q) (n h : Z) (scale : Q) (x : Q) (t : list Q) (k : Z)
+         (lowNN highNN lowW highW : Q) (w0 rp sh sl sp wh wl wp : Q),
+  let '(hi, lo, a, b, c, d, r) :=
+    fn_haarconv_step_w sqrt k h n (Some w0) rp sh sl sp wh wl wp lowNN highNN lowW highW in
+  hi = mirror_hi n (k + h - 1) /\ lo = mirror_lo (k - h - 1) /\
+  (sh = qnth sg hi -> sl = qnth sg lo -> sp = qnth sg (k - 1) ->
+   wh = qnth wt hi -> wl = qnth wt lo -> wp = qnth wt (k - 1) ->
+   (scale == sqrt (inject_Z h / inject_Z 2))%Q ->
+   conv_w_loop sg wt n h scale (x :: t) k lowNN highNN lowW highW
+   = Qred r :: conv_w_loop sg wt n h scale t (k + 1) (Qred a) (Qred b) (Qred c) (Qred d)).
+Proof. exact conv_w_step. Qed.
+
+(* hence weighted HaarConv is the generated iteration run over k = 1, 2, ... from the initial sums *)
+Theorem C11_source_conv_loop_weighted :
+  forall (sqrt : Q -> Q) (sg w : list Q) (h : Z) (scale : Q),
+  (scale == sqrt (inject_Z h / inject_Z 2))%Q ->
+  haar_conv sg (Some w) h scale
+  = let n := Zlength_nat sg in
+    if n <? h then map (fun _ => 0%Q) sg
+    else match sg with
+         | [] => []
+         | _ :: rest =>
+             let hw := qsum (firstn (Z.to_nat h) w) in
+             let hn := qsum (firstn (Z.to_nat h) (qmul2 w sg)) in
+             0%Q :: run_conv_w (src_conv_w_step sqrt sg w n h) rest 1 (Qred (- hn), hn, hw, hw)
+         end.
+Proof. exact haar_conv_w_source. Qed.
+
+(* SegmentByPeaks, `for seg_start, seg_end in zip(...)`: per element i of segs, the statement pair
+   `val = weighted mean if weights is not None and weights[s:e].sum() > 0 else mean; segs[s:e] = val`
+   is the model's seg_mean stored by fill_from where s <= i < e *)
+Theorem C11_source_segs_step :
+  forall (data : list Q) (wt : option (list Q)) (s e : Z) (x : Q) (t : list Q) (i : Z),
+  let d := slice data s e in
+  let ws := match wt with Some w => slice w s e | None => [] end in
+  fill_from (x :: t) i s e (seg_mean data wt s e)
+  = fn_segs_step (match wt with Some _ => Some 0%Q | None => None end)
+                 (qsum ws) (Qred (qsum (qmul2 d ws) / qsum ws)) (Qred (qsum d / inject_Z (Zlength_nat d)))
+                 ((s <=? i) && (i <? e)) x
+      :: fill_from t (i + 1) s e (seg_mean data wt s e).
+Proof. exact segs_step. Qed.
+
+Theorem C11_source_segs_loop :
+  forall (data : list Q) (wt : option (list Q)) (s e : Z) (segs : list Q) (i : Z),
+    let d := slice data s e in
+    let ws := match wt with Some w => slice w s e | None => [] end in
+    fill_from segs i s e (seg_mean data wt s e)
+    = run_fill (fn_segs_step (match wt with Some _ => Some 0%Q | None => None end)
+                             (qsum ws) (Qred (qsum (qmul2 d ws) / qsum ws)) (Qred (qsum d / inject_Z (Zlength_nat d))))
+               segs i s e.
+Proof. exact fill_from_source. Qed.
+
+(* UnifyLevels: last_pos = baseLevel[-1] + windowSize if len(baseLevel) else -1, as used by unify_levels *)
+Theorem C11_source_unify_last_pos :
+  forall (base addon : list Z) (w : Z),
+  unify_levels base addon w
+  = match addon with
+    | [] => base
+    | _ => let '(joined, rest) := unify_loop base addon w in
+           zsort (joined ++ drop_le (fn_unify_last_pos (last base 0) (Zlength_nat base) w) rest)
+    end.
+Proof. exact unify_levels_source. Qed.
+
+(* PulseConv, `for k in range(pulseSize // 2, ...)`: the generated iteration returns (head, tail, result[n], n + 1) *)
+Theorem C11_source_pulse_step :
+  forall (sg : list Q) (n p : Z) (ph : Q) (x : Q) (t : list Q) (k : Z) (prev : Q) (nidx : Z) (sh st : Q),
+  let '(hd, tl, r, nidx') := fn_pulseconv_step k nidx p n ph prev sh st in
+  hd = mirror_hi n k /\ tl = mirror_lo (k - p) /\ nidx' = nidx + 1 /\
+  (sh = qnth sg hd -> st = qnth sg tl ->
+   pulse_loop sg n p ph (x :: t) k prev = Qred r :: pulse_loop sg n p ph t (k + 1) (Qred r)).
+Proof. exact pulse_step. Qed.
+
+(* the generated iterations run on a small signal reproduce the model: unweighted (sqrt is not consulted), and
+   weighted with unit weights and h = 2, where sqrt (2/2) is supplied as 1 *)
+Example C11_source_conv_example :
+  run_conv_u (src_conv_u_step (fun q => q) [0; 0; 0; 1; 1; 1; 1]%Q 7 2) [0; 0; 1; 1; 1; 1]%Q 1 0%Q
+  = [0; 1; 2; 1; 0; 0]%Q
+  /\ run_conv_w (src_conv_w_step (fun _ => 1%Q) [0; 0; 0; 1; 1; 1; 1]%Q [1; 1; 1; 1; 1; 1; 1]%Q 7 2)
+                [0; 0; 1; 1; 1; 1]%Q 1 (0, 0, 2, 2)%Q
+     = [0; 1 # 2; 1; 1 # 2; 0; 0]%Q.
+Proof. split; reflexivity. Qed.
